@@ -156,7 +156,8 @@ type advResult struct {
 	Panic     any
 	Series    map[string]metricslite.Series
 	Logs      string
-	Hooks     []string // OnInconsistentRA invocations: raStr(ours)
+	Hooks     []string        // OnInconsistentRA invocations: raStr(ours)
+	HookAt    []time.Duration // ... and when (parallel to Hooks)
 	Extra     map[string]any
 }
 
@@ -327,6 +328,7 @@ func runAdvertiser(t *testing.T, sc advScenario, hook func(w *simWorld, a *Adver
 		a.OnInconsistentRA = func(ours, theirs *ndp.RouterAdvertisement) {
 			w.mu.Lock()
 			res.Hooks = append(res.Hooks, raStr(ours))
+			res.HookAt = append(res.HookAt, w.now())
 			w.mu.Unlock()
 		}
 		run := w.start(a)
